@@ -85,7 +85,11 @@ def resend_monitor(case, log, ctx):
                     continue
                 nums = numbers.setdefault(e, {}).setdefault(dg, [])
                 if mseq not in nums:
-                    if acked.get(e, {}).get(dg):
+                    sm_ack = acked.get(e, {}).get(dg)
+                    # the number must have been ALLOCATED after the acknowledgement: a copy that was re-numbered when one of its
+                    # datagrams timed out, waited in the queue and went out after another of its datagrams was acknowledged is what the
+                    # unchanged code does (the known finding's mechanism; by itself nothing is delivered twice)
+                    if sm_ack is not None and 1 <= (mseq - sm_ack) % 65535 <= 32767:
                         ctx.failure("fragment-renumbered-after-ack",
                                     "%s sends fragment %s again under the new message number %d (earlier: %s) although a datagram that "
                                     "carried it had already been acknowledged" % (e, dg, mseq, nums), {"case": case, "at": at})
@@ -96,8 +100,13 @@ def resend_monitor(case, log, ctx):
             for ev in rec.get("ev", []):
                 q = ev.split(":")
                 if q[0] == "res" and q[2] == "1":
+                    sm_now = None
+                    for f in rec.get("after", "").split():
+                        if f.startswith("sm="):
+                            sm_now = int(f[3:])
                     for dg in carriers.get(e, {}).get(int(q[1]), []):
-                        acked.setdefault(e, {})[dg] = True
+                        if sm_now is not None:
+                            acked.setdefault(e, {}).setdefault(dg, sm_now)      # the message counter when the first ack arrived
     return False
 
 
